@@ -9,8 +9,8 @@ import (
 	"strings"
 
 	"github.com/taskctl/taskctl/internal/vh/common"
-	"github.com/taskctl/taskctl/internal/vrt"
-	"github.com/taskctl/taskctl/internal/vrt/vsync"
+	"github.com/taskctl/taskctl/vrt"
+	"github.com/taskctl/taskctl/vrt/vsync"
 	"github.com/taskctl/taskctl/pkg/output"
 	"github.com/taskctl/taskctl/pkg/task"
 )
